@@ -16,7 +16,7 @@ RULE = (
     "same root key id, attacker envelope for another root key}; (b) single-bit flips (quick: every bit of header, response header, security trailer, signature, first/last 16 body bytes, bit 0 of "
     "every other body byte; thorough: every bit); (c) pad_length 0..255, auth_len/frag_len +-{1,8,16} with and without matching bytes, alloc_hint/context/cancel edits, packet type -> every other "
     "type; (d) replay of the sealed reply to request #1 as reply to request #2, and a reply sealed by another connection's context; (e) reply signed but not encrypted (integrity level). "
-    "Oracle: (a) and (f) must raise; otherwise raise, or return exactly what the genuine reply yields (unprotect: the plaintext; protect: a blob that names the DC's key and opens with the genuine "
+    "The whole alteration set is also played at the RPC-client level against a scripted security context that leaves data_readonly buffers unsigned (so 'header signing off' really is off): the stub handed to the caller must be byte-for-byte the sealed plaintext, or an exception. Trailer removal is combined with every value of the header flags byte. Oracle: (a) and (f) must raise; otherwise raise, or return exactly what the genuine reply yields (unprotect: the plaintext; protect: a blob that names the DC's key and opens with the genuine "
     "root key). A blob that opens with the attacker's key, or a plaintext obtained through an unsealed reply, is the violation. Non-trivial = the tampered reply reached the client; distinct by alteration."
 )
 ASSUME = ["pyspnego's NTLM implementation is the security context (both ends)", "a client blocking on a shortened/lengthened frame is an error outcome (the real peer would close)"]
@@ -97,6 +97,9 @@ def alterations(tier: str, sealed_len: int, body_len: int, sign: bool) -> t.List
         for body in ("genuine", "evil-other"):
             for sigkind in ("junk", "kept"):
                 alts.append((f"forged:level{level}:{body}:{sigkind}", ("forged", level, body, sigkind)))
+    for fl in range(256):
+        if fl != 3:
+            alts.append((f"notrailer-flags{fl:#04x}", ("notrailer-flags", fl, "genuine" if fl % 2 else "evil-other")))
     for cid in (0, 2, 0x7FFFFFFF):
         for body in ("genuine", "evil-other"):
             alts.append((f"notrailer-callid{cid}:{body}", ("notrailer-callid", cid, body)))
@@ -135,6 +138,12 @@ def apply(desc, sealed: bytes, info: dict, st: dict, op: str, sd: bytes) -> byte
         hdr = bytearray(sealed[:24])
         hdr[16:20] = struct.pack("<I", len(body))
         return fix_len(bytes(hdr) + body + bytes(trailer) + sig)
+    if k == "notrailer-flags":
+        _, fl, which = desc
+        body = info["plain_stub"] if which == "genuine" else evil_stub(st, "other", op, sd)
+        out = bytearray(strip_trailer(sealed, info, body))
+        out[3] = fl
+        return bytes(out)
     if k == "notrailer-callid":
         _, cid, which = desc
         body = info["plain_stub"] if which == "genuine" else evil_stub(st, "other", op, sd)
@@ -242,7 +251,7 @@ def judge(seed: int, op: str, api: str, sign: bool, name: str, desc, acc) -> Non
         acc.violate("harness.reply-not-reached", case, {"status": status, "value": repr(v)[:200]})
         return
     acc.nt(("alt", op, api, sign, name))
-    unsealed = desc is not None and desc[0] in ("notrailer", "notrailer-callid", "forged")
+    unsealed = desc is not None and desc[0] in ("notrailer", "notrailer-callid", "notrailer-flags", "forged")
     if status == "spin":
         acc.violate("spin", case, {"detail": v})
         return
@@ -328,8 +337,89 @@ def run_replay_attack(seed: int, api: str, sign: bool, acc) -> None:
     acc.nt(("replay", api, sign))
 
 
+def run_rpc_level(seed: int, api: str, sign: bool, desc, name: str, acc) -> None:
+    """the same alterations against SyncRpcClient/AsyncRpcClient.request with the scripted security context, which (unlike pyspnego's
+    NTLM) does NOT sign data_readonly buffers, so 'header signing not negotiated' really leaves header and trailer unsigned.
+    Oracle on the stub handed to the caller: exactly the plaintext the peer sealed, or an exception."""
+    from dpapi_ng._gkdi import ISD_KEY, GetKey
+    from dpapi_ng._rpc import NDR64, ContextElement, async_create_rpc_connection, bind_time_feature_negotiation, create_rpc_connection
+
+    st = setup(seed)
+    dc = refdc.DC([st["rk"]], now=NOW, sec="scripted", header_sign=sign)
+    seen: t.Dict[str, t.Any] = {}
+
+    def tamper(conn, sealed, info):
+        seen["info"] = info
+        if desc is None:
+            return sealed
+        try:
+            return apply(desc, sealed, info, st, "unprotect", dc.getkey_calls[-1][0])
+        except Exception as e:  # noqa: BLE001 - alteration not applicable to this context (e.g. NTLM-only)
+            seen["skip"] = repr(e)
+            return sealed
+
+    dc.tamper = tamper
+    ctxs = [ContextElement(0, ISD_KEY, [NDR64]), ContextElement(1, ISD_KEY, [bind_time_feature_negotiation()])]
+    sd = dc_sd = None
+    from ref import dtyp
+
+    sd = dtyp.target_sd(dtyp.parse_sid_string(SID))
+    stub = GetKey(sd, st["rk"].rkid, 361, 3, 5).pack()
+    case = ["rpc", api, sign, name]
+    with transport.network(dc), secctx.scripted_client(lambda u, p, **kw: secctx.ScriptedContext([b"C1"], 16)):
+        try:
+            if api == "sync":
+                c = create_rpc_connection("dc", dc.isd_port, username="u", password="p", auth_protocol="ntlm")
+                try:
+                    c.bind(contexts=ctxs)
+                    r = c.request(0, 0, stub)
+                finally:
+                    c.close()
+            else:
+
+                async def go():
+                    c = await async_create_rpc_connection("dc", dc.isd_port, username="u", password="p", auth_protocol="ntlm")
+                    try:
+                        await c.bind(contexts=ctxs)
+                        return await c.request(0, 0, stub)
+                    finally:
+                        await c.close()
+
+                r = vloop.run(go())
+            status = "ok"
+        except (transport.BlocksForever, vloop.Deadlock):
+            status = "blocked"
+        except transport.Spin as e:
+            acc.violate("rpc.spin", case, {"detail": repr(e)})
+            return
+        except Exception as e:  # noqa: BLE001
+            status = "exc:" + type(e).__name__
+    if "skip" in seen or "info" not in seen:
+        return
+    acc.nt(("rpc", api, sign, name))
+    if status != "ok":
+        acc.outcome("rpc-rejected")
+        if desc is None:
+            acc.violate("rpc.genuine.rejected", case, {"status": status})
+        return
+    sealed_plain = seen["info"]["body"]
+    if bytes(r.stub_data) != sealed_plain:
+        acc.violate("rpc.stub-differs-from-sealed-plaintext", case, {"returned_len": len(r.stub_data), "sealed_len": len(sealed_plain), "returned_head": bytes(r.stub_data)[:24].hex(), "sealed_head": sealed_plain[:24].hex()}, size=len(name))
+    elif desc is not None and desc[0] in ("notrailer", "notrailer-callid", "notrailer-flags", "forged"):
+        acc.violate("rpc.unsealed-accepted", case, {"alteration": name}, size=len(name))
+    elif sign and (r.sec_trailer is None or r.sec_trailer.pad_length != seen["info"]["pad"]):
+        # only with header signing is the trailer (and its pad_length) protected; without it the property does not demand rejection
+        acc.violate("rpc.pad_length-differs", case, {"pad_length": None if r.sec_trailer is None else r.sec_trailer.pad_length, "sealed_with": seen["info"]["pad"]}, size=len(name))
+    else:
+        acc.outcome("rpc-harmless")
+
+
 def shards(tier: str, seed: int):
     out = []
+    for api in ("sync", "async"):
+        for sg in (True, False):
+            for part in range(4):
+                out.append(["rpc", api, sg, part, 4])
     combos = [("unprotect", "sync", True), ("protect", "sync", True), ("protect", "sync", False), ("unprotect", "async", True)]
     if tier == "thorough":
         combos = [(op, api, sg) for op in ("unprotect", "protect") for api in ("sync", "async") for sg in (True, False)]
@@ -342,6 +432,28 @@ def shards(tier: str, seed: int):
 
 def run_shard(shard, tier, seed, acc) -> None:
     worker_init()
+    if shard[0] == "rpc":
+        _, api, sg, part, nparts = shard
+        st = setup(seed)
+        probe: t.Dict[str, t.Any] = {}
+        dc0 = refdc.DC([st["rk"]], now=NOW, sec="scripted", header_sign=sg)
+        run_rpc_level(seed, api, sg, None, "genuine", acc)
+        # sizes of the scripted exchange: body = GetKey reply for (361,3,5), 16-byte signature
+        from ref import dtyp as _d
+
+        envb = gkdi.pack_envelope(gkdi.server_envelope(st["rk"], _d.target_sd(_d.parse_sid_string(SID)), 361, 3, 5, domain="domain.test", forest="domain.test"))
+        plain = ndr64.getkey_response(envb, 0)
+        body_len = len(plain) + (-len(plain) % 16)
+        alts = alterations("thorough", 24 + body_len + 8 + 16, body_len, sg)
+        n = 1
+        for i, (name, desc) in enumerate(alts):
+            if i % nparts != part or acc.too_many() or desc[0] in ("integrity", "otherctx"):
+                continue
+            run_rpc_level(seed, api, sg, desc, name, acc)
+            n += 1
+        acc.ev(n)
+        acc.sample({"level": "RPC client (scripted security context)", "api": api, "header_signing": sg, "alterations": len(alts)})
+        return
     if shard[0] == "alts":
         _, op, api, sg, part, nparts = shard
         status, v, seen = run_api(seed, op, api, sg, None)  # genuine run: learn the sizes
@@ -371,6 +483,22 @@ def run_shard(shard, tier, seed, acc) -> None:
 def replay(case, seed, acc) -> None:
     worker_init()
     acc.ev()
+    if case[0] == "rpc":
+        _, api, sg, name = case
+        for n2, desc in [("genuine", None)] + alterations("thorough", 24 + 4096, 4096, sg):
+            if n2 == name:
+                # sizes are recomputed exactly as in the shard
+                st = setup(seed)
+                from ref import dtyp as _d
+
+                envb = gkdi.pack_envelope(gkdi.server_envelope(st["rk"], _d.target_sd(_d.parse_sid_string(SID)), 361, 3, 5, domain="domain.test", forest="domain.test"))
+                plain = ndr64.getkey_response(envb, 0)
+                body_len = len(plain) + (-len(plain) % 16)
+                for n3, d3 in [("genuine", None)] + alterations("thorough", 24 + body_len + 8 + 16, body_len, sg):
+                    if n3 == name:
+                        run_rpc_level(seed, api, sg, d3, name, acc)
+                        return
+        return
     if case[0] == "replay":
         run_replay_attack(seed, case[1], case[2], acc)
         return
